@@ -3,7 +3,9 @@
 // Same line protocol as bin/xm_C20 (the extracted Coq model).
 //
 // request : <tag> <x|l> <p|u> <root-dir/> <top-relative-path> [abstract file system, ignored here]
-// answer  : E[<code>,...] D<node>...          (one line)
+// answer  : E[<code>,...] [X:<exception>] [Q[ok <elements>]|Q[BAD <what>]] D<node>...          (one line)
+//   Q = consistency of the resulting DOM (documentElement identity, ownerDocument, parent/sibling links,
+//       getElementsByTagName, lookupNamespaceURI, second normalizeDocument, serialise + re-parse)
 //   node  := (NS:LOCAL b=RAWBASE r=RESOLVEDBASE{ @NS:LOCAL=CPS} {node}) | T<cps> | C<cps>
 //   cps   := code points in hex separated by '.'; adjacent text nodes are merged, empty text nodes dropped
 #include "xh_common.hpp"
@@ -18,7 +20,10 @@
 #include <xercesc/framework/LocalFileInputSource.hpp>
 #include <xercesc/util/XMLUni.hpp>
 #include <xercesc/xinclude/XIncludeDOMDocumentProcessor.hpp>
+#include <xercesc/framework/MemBufInputSource.hpp>
+#include <xercesc/framework/MemBufFormatTarget.hpp>
 #include <algorithm>
+#include <regex>
 
 using namespace xh;
 
@@ -178,14 +183,97 @@ static std::string dumpDoc(DOMDocument* d) {
     return out;
 }
 
+// ---- consistency of the DOM that XInclude leaves behind, and follow-up uses of it -------------------------------
+static size_t gElems;
+static void checkLinks(DOMDocument* doc, DOMNode* n, DOMNode* parent, std::string& bad) {
+    if (n != (DOMNode*)doc && n->getOwnerDocument() != doc) bad += " ownerDocument";
+    if (n->getParentNode() != parent) bad += " parent";
+    if (n->getNodeType() == DOMNode::ELEMENT_NODE) {
+        gElems++;
+        DOMNamedNodeMap* m = n->getAttributes();
+        for (XMLSize_t i = 0; m && i < m->getLength(); i++) {
+            DOMAttr* at = (DOMAttr*)m->item(i);
+            if (at->getOwnerDocument() != doc) bad += " attr-ownerDocument";
+            if (at->getOwnerElement() != (DOMElement*)n) bad += " attr-ownerElement";
+        }
+    }
+    DOMNode* prev = 0;
+    for (DOMNode* c = n->getFirstChild(); c; c = c->getNextSibling()) {
+        if (c->getPreviousSibling() != prev) bad += " previousSibling";
+        checkLinks(doc, c, n, bad);
+        prev = c;
+    }
+    if (n->getLastChild() != prev) bad += " lastChild";
+    if ((n->getFirstChild() != 0) != n->hasChildNodes()) bad += " hasChildNodes";
+}
+static std::string stripR(const std::string& s) { return std::regex_replace(s, std::regex(" r=[^ )]*"), ""); }
+static std::string quality(DOMDocument* doc) {
+    std::string bad;
+    DOMNode* firstElem = 0;
+    int topElems = 0;
+    for (DOMNode* c = doc->getFirstChild(); c; c = c->getNextSibling())
+        if (c->getNodeType() == DOMNode::ELEMENT_NODE) { if (!firstElem) firstElem = c; topElems++; }
+    if ((DOMNode*)doc->getDocumentElement() != firstElem) bad += doc->getDocumentElement() ? " documentElement-is-another-node" : " documentElement-null";
+    gElems = 0;
+    checkLinks(doc, doc, 0, bad);
+    size_t total = gElems;
+    static const XMLCh star[] = {'*', 0};
+    DOMNodeList* all = doc->getElementsByTagName(star);
+    if (!all || all->getLength() != total) bad += " getElementsByTagName=" + std::to_string(all ? (long)all->getLength() : -1L);
+    if (firstElem) {
+        static const XMLCh pxi[] = {'x', 'i', 0};
+        static const XMLCh pn3[] = {'n', '3', 0};
+        const XMLCh* ps[] = {pxi, pn3};
+        for (int i = 0; i < 2; i++)
+            if (!XMLString::equals(doc->lookupNamespaceURI(ps[i]), firstElem->lookupNamespaceURI(ps[i]))) bad += " lookupNamespaceURI";
+    }
+    // a second normalisation must not change anything
+    std::string d1 = dumpDoc(doc);
+    doc->normalizeDocument();
+    std::string d2 = dumpDoc(doc);
+    if (d1 != d2) bad += " normalizeDocument-changes-the-tree";
+    // serialise and parse again (without XInclude): same tree
+    if (topElems == 1) {
+        try {
+            static const XMLCh ls[] = {'L', 'S', 0};
+            DOMImplementation* impl = DOMImplementationRegistry::getDOMImplementation(ls);
+            DOMLSSerializer* ser = ((DOMImplementationLS*)impl)->createLSSerializer();
+            DOMLSOutput* outp = ((DOMImplementationLS*)impl)->createLSOutput();
+            MemBufFormatTarget tgt;
+            outp->setByteStream(&tgt);
+            static const XMLCh u8[] = {'U', 'T', 'F', '-', '8', 0};
+            outp->setEncoding(u8);
+            bool okw = ser->write(doc, outp);
+            std::string bytes((const char*)tgt.getRawBuffer(), tgt.getLen());
+            outp->release();
+            ser->release();
+            if (!okw) bad += " serialise-failed";
+            else {
+                XParser p2;
+                QuietSax h2;
+                p2.setErrorHandler(&h2);
+                p2.setDoNamespaces(true);
+                p2.setDoXInclude(false);
+                MemBufInputSource src((const XMLByte*)bytes.data(), bytes.size(), "reparse");
+                size_t before = gErrs.size();
+                p2.parse(src);
+                if (gErrs.size() != before) { bad += " reparse-errors"; gErrs.resize(before); }
+                else if (stripR(dumpDoc(p2.getDocument())) != stripR(d2)) bad += " reparse-differs";
+            }
+        } catch (...) { bad += " serialise-reparse-exception"; }
+    }
+    if (bad.empty()) return "Q[ok " + std::to_string(total) + "]";
+    return "Q[BAD" + bad + "]";
+}
+
 static std::string handle(const std::vector<std::string>& a) {
     if (a.size() < 5) return "bad-request";
     gErrs.clear();
     gRootPath = a[3];
     gRootUrl = "file://" + a[3];
-    std::string path = a[3] + a[4];
+    std::string path = a[3] + a[4];      // a[4] is in URI form (no %-escapes in the top document's own path)
     std::string sys = a[2] == "u" ? "file://" + path : path;
-    std::string tree, exc;
+    std::string tree, exc, q;
     try {
         if (a[1][0] == 'x') {
             XParser p;
@@ -198,7 +286,7 @@ static std::string handle(const std::vector<std::string>& a) {
             catch (const XMLException& e) { exc = " X:XMLException:" + narrow(e.getType()); }
             catch (const DOMException& e) { exc = " X:DOMException:" + std::to_string((int)e.code); }
             catch (const SAXException& e) { exc = " X:SAXException"; }
-            if (exc.empty()) tree = dumpDoc(p.getDocument());
+            if (exc.empty()) { tree = dumpDoc(p.getDocument()); if (p.getDocument()) q = quality(p.getDocument()); }
         } else if (a[1][0] == 'd') {
             // XIncludeDOMDocumentProcessor::doXIncludeDOMProcess on a document parsed without XInclude
             XParser p;
@@ -217,7 +305,7 @@ static std::string handle(const std::vector<std::string>& a) {
             catch (const XMLException& e) { exc = " X:XMLException:" + narrow(e.getType()); }
             catch (const DOMException& e) { exc = " X:DOMException:" + std::to_string((int)e.code); }
             catch (const SAXException& e) { exc = " X:SAXException"; }
-            if (exc.empty()) tree = dumpDoc(out);
+            if (exc.empty()) { tree = dumpDoc(out); if (out) q = quality(out); }
             if (out) out->release();
         } else {
             LParser p;
@@ -231,7 +319,7 @@ static std::string handle(const std::vector<std::string>& a) {
             catch (const XMLException& e) { exc = " X:XMLException:" + narrow(e.getType()); }
             catch (const DOMException& e) { exc = " X:DOMException:" + std::to_string((int)e.code); }
             catch (const SAXException& e) { exc = " X:SAXException"; }
-            if (exc.empty()) tree = dumpDoc(d);
+            if (exc.empty()) { tree = dumpDoc(d); if (d) q = quality(d); }
         }
     } catch (const OutOfMemoryException&) {
         exc += " X:OutOfMemory";
@@ -242,7 +330,7 @@ static std::string handle(const std::vector<std::string>& a) {
     }
     std::string r = "E[";
     for (size_t i = 0; i < gErrs.size(); i++) r += (i ? "," : "") + gErrs[i];
-    r += "]" + exc + " D" + tree;
+    r += "]" + exc + (q.empty() ? "" : " " + q) + " D" + tree;
     return r;
 }
 
